@@ -30,8 +30,7 @@ ASSUMPTIONS = [
     "the patched scheduler-aware lock has the mutual-exclusion semantics of multiprocessing.Lock",
     "fairness/termination under the OS scheduler is outside the model",
 ]
-PARTIAL = ["instantiation of C07L.SeqOK by the C02 cache invariant: concurrent_correct / keys_always_ok / mutex are proved for "
-           "every schedule relative to SeqOK (the sequential theory of _ensure_level), whose proof for the C02 model is in progress"]
+PARTIAL = ["progress (every thread eventually terminates) is not stated: it needs a fairness assumption on the schedule"]
 TRUSTED = ["sys.settrace-based deterministic scheduler (harness/c07.py)", "monkey-patched Av._CACHE_LOCK"]
 
 HANG_S = 60.0
